@@ -14,6 +14,12 @@ for sid in ids:
     sites = re.findall(r"site=(\S+)", out)
     meta["detected_by_quick_check"] = r.returncode == 0
     meta["detecting_sites"] = sorted(set(sites))[:6]
+    notes = os.path.join(d, "notes.md")
+    if os.path.exists(notes):
+        txt = open(notes, errors="replace").read()
+        m = re.search(r"(?is)(trigger|what.*needed|manifest)[^\n]*\n(.{0,900})", txt)
+        meta["needs_to_manifest"] = (m.group(2) if m else txt[:900]).strip()
+        meta["notes_file"] = "notes.md (written by the sub-agent that proposed the change)"
     meta["what_was_run"] = "tools/verify_seed.py %s (scratch worktree: git apply, make, make check, demo with/without); tools/mutcheck.py seeded/%s/patch.diff %s" % (sid, sid, pid)
     json.dump(meta, open(d + "/meta.json", "w"), indent=1)
     rows.append((sid, "detected" if r.returncode == 0 else "MISSED", ", ".join(sorted(set(sites))[:3])))
